@@ -11,6 +11,7 @@
 -/
 import KadDHT.Model.Keystore
 import KadDHT.Proofs.Bits
+import KadDHT.Model.ResetProto
 namespace KadDHT.C20
 open KadDHT KadDHT.KS
 
@@ -298,5 +299,191 @@ example : KS.get 8 [[true, false, true, true, false, false, false, false, true, 
 example : active (crashAt { slot0 := [1, 2], marker := 0 } (resetProgram [[7], [8]]) 2) = [1, 2] ∧
     active (crashAt { slot0 := [1, 2], marker := 0 } (resetProgram [[7], [8]]) 3) = [7, 8] ∧
     active (crashAt { slot0 := [1, 2], marker := 0 } (resetProgram [[7], [8]]) 4) = [7, 8] := by decide
+
+/-! ### the reset against concurrent Puts, every interleaving -/
+
+section resetproto
+open KadDHT.ResetProto
+
+/-- what holds in every reachable state while a reset is in progress -/
+structure ResetInv (s : ResetProto.S) : Prop where
+  /-- an acknowledged Put is on its way into the alternate slot: buffered, taken, or written -/
+  ackedSafe : s.inReset = true → ∀ k ∈ s.acked, k ∈ s.alt ∨ k ∈ s.buf ∨ k ∈ s.held
+  /-- nothing else gets there than supplied keys and acknowledged Puts -/
+  onlyThose : s.inReset = true → ∀ k, (k ∈ s.alt ∨ k ∈ s.buf ∨ k ∈ s.held) → k ∈ s.supplied ∨ k ∈ s.acked
+  /-- every supplied key is written or still pending -/
+  suppliedSafe : s.inReset = true → ∀ k ∈ s.supplied, k ∈ s.alt ∨ k ∈ s.pending
+  pendingSub : s.inReset = true → ∀ k ∈ s.pending, k ∈ s.supplied
+
+theorem resetInv_init (keys : List Nat) : ResetInv { act := keys } :=
+  ⟨fun h => by simp at h, fun h => by simp at h, fun h => by simp at h, fun h => by simp at h⟩
+
+theorem resetInv_step (s s' : ResetProto.S) (h : ResetInv s) (hs : ResetProto.Step s s') : ResetInv s' := by
+  cases hs with
+  | put k =>
+    refine ⟨?_, ?_, ?_, ?_⟩
+    · intro hr x hx
+      have hr' : s.inReset = true := hr
+      simp only [hr', ↓reduceIte, List.mem_cons] at hx ⊢
+      rcases hx with rfl | hx
+      · exact Or.inr (Or.inl (Or.inl rfl))
+      · rcases h.ackedSafe hr' x hx with h1 | h1 | h1
+        · exact Or.inl h1
+        · exact Or.inr (Or.inl (Or.inr h1))
+        · exact Or.inr (Or.inr h1)
+    · intro hr x hx
+      have hr' : s.inReset = true := hr
+      simp only [hr', ↓reduceIte, List.mem_cons] at hx ⊢
+      rcases hx with h1 | (rfl | h1) | h1
+      · rcases h.onlyThose hr' x (Or.inl h1) with h2 | h2
+        · exact Or.inl h2
+        · exact Or.inr (Or.inr h2)
+      · exact Or.inr (Or.inl rfl)
+      · rcases h.onlyThose hr' x (Or.inr (Or.inl h1)) with h2 | h2
+        · exact Or.inl h2
+        · exact Or.inr (Or.inr h2)
+      · rcases h.onlyThose hr' x (Or.inr (Or.inr h1)) with h2 | h2
+        · exact Or.inl h2
+        · exact Or.inr (Or.inr h2)
+    · intro hr x hx
+      exact h.suppliedSafe hr x hx
+    · intro hr x hx
+      exact h.pendingSub hr x hx
+  | start keys hn =>
+    refine ⟨?_, ?_, ?_, ?_⟩
+    · intro _ x hx; simp at hx
+    · intro _ x hx; simp at hx
+    · intro _ x hx; exact Or.inr hx
+    · intro _ x hx; exact hx
+  | write n hr =>
+    refine ⟨?_, ?_, ?_, ?_⟩
+    · intro _ x hx
+      rcases h.ackedSafe hr x hx with h1 | h1 | h1
+      · exact Or.inl (List.mem_append.2 (Or.inr h1))
+      · exact Or.inr (Or.inl h1)
+      · exact Or.inr (Or.inr h1)
+    · intro _ x hx
+      rcases hx with h1 | h1 | h1
+      · rcases List.mem_append.1 h1 with h2 | h2
+        · -- a supplied key
+          have : x ∈ s.pending := List.mem_of_mem_take h2
+          -- pending keys are supplied keys: by `suppliedOnly` below we only need membership in `supplied`
+          exact Or.inl (h.pendingSub hr x this)
+        · exact h.onlyThose hr x (Or.inl h2)
+      · exact h.onlyThose hr x (Or.inr (Or.inl h1))
+      · exact h.onlyThose hr x (Or.inr (Or.inr h1))
+    · intro _ x hx
+      rcases h.suppliedSafe hr x hx with h1 | h1
+      · exact Or.inl (List.mem_append.2 (Or.inr h1))
+      · have := List.take_append_drop n s.pending
+        rw [← this] at h1
+        rcases List.mem_append.1 h1 with h2 | h2
+        · exact Or.inl (List.mem_append.2 (Or.inl h2))
+        · exact Or.inr h2
+    · intro _ x hx
+      exact h.pendingSub hr x (List.mem_of_mem_drop hx)
+  | take hr hh =>
+    refine ⟨?_, ?_, ?_, ?_⟩
+    · intro _ x hx
+      rcases h.ackedSafe hr x hx with h1 | h1 | h1
+      · exact Or.inl h1
+      · exact Or.inr (Or.inr h1)
+      · rw [hh] at h1; cases h1
+    · intro _ x hx
+      rcases hx with h1 | h1 | h1
+      · exact h.onlyThose hr x (Or.inl h1)
+      · cases h1
+      · exact h.onlyThose hr x (Or.inr (Or.inl h1))
+    · intro _ x hx; exact h.suppliedSafe hr x hx
+    · intro _ x hx; exact h.pendingSub hr x hx
+  | flush hr =>
+    refine ⟨?_, ?_, ?_, ?_⟩
+    · intro _ x hx
+      rcases h.ackedSafe hr x hx with h1 | h1 | h1
+      · exact Or.inl (List.mem_append.2 (Or.inr h1))
+      · exact Or.inr (Or.inl h1)
+      · exact Or.inl (List.mem_append.2 (Or.inl h1))
+    · intro _ x hx
+      rcases hx with h1 | h1 | h1
+      · rcases List.mem_append.1 h1 with h2 | h2
+        · exact h.onlyThose hr x (Or.inr (Or.inr h2))
+        · exact h.onlyThose hr x (Or.inl h2)
+      · exact h.onlyThose hr x (Or.inr (Or.inl h1))
+      · cases h1
+    · intro _ x hx
+      rcases h.suppliedSafe hr x hx with h1 | h1
+      · exact Or.inl (List.mem_append.2 (Or.inr h1))
+      · exact Or.inr h1
+    · intro _ x hx; exact h.pendingSub hr x hx
+  | cleanup hr hp hh =>
+    exact ⟨fun h' => by simp at h', fun h' => by simp at h', fun h' => by simp at h', fun h' => by simp at h'⟩
+
+theorem resetInv_reach (s : ResetProto.S) (h : ResetProto.Reach s) : ResetInv s := by
+  induction h with
+  | init keys => exact resetInv_init keys
+  | step s s' _ hs ih => exact resetInv_step s s' ih hs
+
+/-- A reset replaces the contents by exactly the supplied keys plus every key whose Put was acknowledged while it ran —
+    for every number of concurrent Puts and buffer drains and every interleaving of them with the reset's phases: at the
+    moment `opCleanup` swaps the slots, what becomes the active slot holds a key if and only if it was supplied or its
+    Put was acknowledged during the reset.  (Keys stored before and neither supplied nor put again are gone.) -/
+theorem reset_replaces_exactly (s s' : ResetProto.S) (hr : ResetProto.Reach s) (hs : ResetProto.Step s s')
+    (hc : s.inReset = true ∧ s'.inReset = false) :
+    ∀ k, k ∈ s'.act ↔ (k ∈ s.supplied ∨ k ∈ s.acked) := by
+  have hinv := resetInv_reach s hr
+  cases hs with
+  | put k => simp [hc.1] at hc
+  | start keys hn => rw [hn] at hc; simp at hc
+  | write n h => simp [h] at hc
+  | take h hh => simp [h] at hc
+  | flush h => simp [h] at hc
+  | cleanup h hp hh =>
+    intro k
+    show k ∈ s.buf ++ s.alt ↔ _
+    constructor
+    · intro hk
+      rcases List.mem_append.1 hk with h1 | h1
+      · exact hinv.onlyThose h k (Or.inr (Or.inl h1))
+      · exact hinv.onlyThose h k (Or.inl h1)
+    · rintro (hk | hk)
+      · rcases hinv.suppliedSafe h k hk with h1 | h1
+        · exact List.mem_append.2 (Or.inr h1)
+        · rw [hp] at h1; cases h1
+      · rcases hinv.ackedSafe h k hk with h1 | h1 | h1
+        · exact List.mem_append.2 (Or.inr h1)
+        · exact List.mem_append.2 (Or.inl h1)
+        · rw [hh] at h1; cases h1
+
+/-- … and until then the active slot is untouched by the reset: it only grows by the Puts themselves, so a reset that
+    is cancelled, fails or is cut off by Close leaves the complete previous set with the acknowledged Puts -/
+theorem active_slot_only_grows_during_reset (s s' : ResetProto.S) (hs : ResetProto.Step s s') (h : s'.inReset = true) :
+    ∀ k ∈ s.act, k ∈ s'.act := by
+  cases hs with
+  | put k => intro x hx; exact List.mem_cons_of_mem _ hx
+  | start keys hn => intro x hx; exact hx
+  | write n h' => intro x hx; exact hx
+  | take h' hh => intro x hx; exact hx
+  | flush h' => intro x hx; exact hx
+  | cleanup h' hp hh => simp at h
+
+/-- non-vacuity: supplied {1,2}, a Put of 7 lands between a takeBuf and its write, a Put of 8 after the last drain -/
+def exFinal : ResetProto.S :=
+  { act := [8, 7, 5], alt := [1, 2], buf := [8, 7], held := [], inReset := true, pending := [], acked := [8, 7],
+    supplied := [1, 2], done := false }
+
+theorem exFinal_reach : ResetProto.Reach exFinal := by
+  have r0 : ResetProto.Reach { act := [5] } := .init [5]
+  have r1 := ResetProto.Reach.step _ _ r0 (.start _ [1, 2] rfl)
+  have r2 := ResetProto.Reach.step _ _ r1 (.write _ 2 rfl)
+  have r3 := ResetProto.Reach.step _ _ r2 (.take _ rfl rfl)
+  have r4 := ResetProto.Reach.step _ _ r3 (.put _ 7)
+  have r5 := ResetProto.Reach.step _ _ r4 (.flush _ rfl)
+  have r6 := ResetProto.Reach.step _ _ r5 (.put _ 8)
+  exact r6
+
+example : ∃ s', ResetProto.Step exFinal s' ∧ s'.inReset = false ∧ s'.act = [8, 7, 1, 2] :=
+  ⟨_, ResetProto.Step.cleanup exFinal rfl rfl rfl, rfl, rfl⟩
+
+end resetproto
 
 end KadDHT.C20
